@@ -23,6 +23,11 @@ pub struct ClockSpec {
     /// spelling them out
     #[serde(default)]
     pub freeze: Option<(u64, u64)>,
+    /// the timer callback itself FAILS at this reading: it unwinds (as a callback that unwraps a failed system
+    /// call does) instead of returning a value; the caller of the generator contains the unwind. The
+    /// simulator books it like a stuck clock: the operation of THIS instance has no result.
+    #[serde(default)]
+    pub abort_at: Option<u64>,
 }
 
 impl ClockSpec {
@@ -77,7 +82,7 @@ impl ClockCore {
     #[inline]
     pub fn read(&self) -> u64 {
         let i = self.pos.fetch_add(1, Ordering::Relaxed);
-        if i >= self.cap.load(Ordering::Relaxed) {
+        if i >= self.cap.load(Ordering::Relaxed) || Some(i) == self.spec.abort_at {
             std::panic::resume_unwind(Box::new(ClockAbort));
         }
         self.spec.reading(i).wrapping_add(self.skew)
